@@ -650,6 +650,12 @@ class TextXVisitor(RRELVisitor):
                         # from the main grammar's namespace: keep the
                         # qualified name of the rule meant by this grammar.
                         attr.match_rule_name = metamodel[rule_name]._tx_fqn
+                    for alt in getattr(attr, "ref_alternatives", []):
+                        alt["cls"] = _resolve_cls(alt["cls"])
+                        if alt["match_rule_name"] in metamodel:
+                            alt["match_rule_name"] = metamodel[
+                                alt["match_rule_name"]
+                            ]._tx_fqn
 
                     if grammar_parser.debug:
                         grammar_parser.dprint(
@@ -1023,6 +1029,17 @@ class TextXVisitor(RRELVisitor):
             cls_attr.match_rule_name = rhs_rule.rule_name
             # Target class is not the same as target rule
             target_cls = rhs_rule.cls
+            # An attribute may be assigned references at several places of
+            # the rule, each with its own target class, match rule and RREL
+            # expression: keep them per assignment.
+            if not hasattr(cls_attr, "ref_alternatives"):
+                cls_attr.ref_alternatives = []
+            ref_alternative = {
+                "cls": ClassCrossRef(cls_name=target_cls, position=node.position),
+                "scope_provider": rhs_rule.scope_provider,
+                "match_rule_name": rhs_rule.rule_name,
+            }
+            cls_attr.ref_alternatives.append(ref_alternative)
 
         base_rule_name = rhs_rule.rule_name
         if op == "+=":
@@ -1092,6 +1109,8 @@ class TextXVisitor(RRELVisitor):
 
         assignment_rule._attr_name = attr_name
         assignment_rule._exp_str = attr_name  # For nice error reporting
+        if target_cls is not None:
+            assignment_rule._tx_ref_alternative = ref_alternative
         return assignment_rule
 
     def visit_str_match(self, node, children):
